@@ -110,6 +110,7 @@ def run(rep: core.Report):
 
     _r19d(rep)
     _r19e(rep)
+    _r19f(rep)
     # R19c
     sii = core.find_def(RD, "RandomDisplacements._solve_ii")
     sij = core.find_def(RD, "RandomDisplacements._solve_ij")
@@ -176,6 +177,35 @@ def run(rep: core.Report):
                  f"the two classes of commensurate points are not treated with real / complex phases respectively ({'; '.join(bad) or 'loops over ' + str(sorted(loops))})", line=prep.lineno)
     part = [s for s in ast.walk(core.find_def(RD, "RandomDisplacements._setup_sampling_qpoints")) if isinstance(s, ast.Assign) and "categorize_commensurate_points" in core.src(s.value)]
     rep.instance("R19c", RD, "RandomDisplacements._setup_sampling_qpoints", core.src(part[0]) if part else "<vanished>", len(part) == 1 and core.src(part[0].targets[0]) == "(self._ii, self._ij)", "the ii/ij partition is not computed once by categorize_commensurate_points", line=part[0].lineno if part else 0)
+
+
+def _r19f(rep):
+    """Assembly of the sampler: the documented expressions at every step between the normal variates and the
+    displacements (open terms in each function's own environment)."""
+    from engine import sites
+
+    rep.rule("R19f", "sampler assembly: mode amplitudes -> atoms -> mass and cell-count normalisation -> optional truncation, and the C-type/D-type transforms, frequency <-> eigenvalue maps and q = n / N, each equal to the documented expression", 14)
+    R = "RandomDisplacements"
+    S = [
+        (f"{R}.__init__", "assign", "self._lpos", "self._spos - self._ppos[self._s2pp]", "the lattice-point positions are not supercell positions minus the positions of the primitive atoms they belong to"),
+        (f"{R}.__init__", "assign", "self._s2pp", "[p2p[i] for i in s2p]", "the supercell -> primitive index map is not p2p[s2p[.]]"),
+        (f"{R}.run", "assign", "u", "(u_ii + u_ij) / np.sqrt(mass * N)", "the displacements are not (ii part + ij part) / sqrt(mass N)"),
+        (f"{R}.run", "assign", "mass", "self._dynmat.supercell.masses.reshape(-1, 1)", "the masses dividing the displacements are not the supercell masses"),
+        (f"{R}.run", "assign", "N", "len(self._comm_points)", "N is not the number of commensurate points"),
+        (f"{R}.run", "assign", "self._u", "np.where(dists < self._max_distance, u, u / dists * self._max_distance)", "displacements longer than max_distance are not rescaled to max_distance"),
+        (f"{R}._solve_ii", "assign", "u_red", "np.dot(norm_dist * sigma, eigvecs.T).reshape(number_of_snapshots, -1, 3)[:, self._s2pp, :]", "the ii amplitudes are not (variates x sigma) . eigvecs^T distributed to the supercell atoms"),
+        (f"{R}._solve_ii", "aug", "u", "u_red * phase", "the ii contribution is not amplitude x cos phase"),
+        (f"{R}._solve_ij", "assign", "u_red", "np.dot(norm_dist * sigma, eigvecs.T).reshape(2, number_of_snapshots, -1, 3)[:, :, self._s2pp, :]", "the ij amplitudes are not (variates x sigma) . eigvecs^T distributed to the supercell atoms"),
+        (f"{R}._get_sigma", "ret", 1, "np.sqrt(np.abs(eigvals)) * self._factor > self._cutoff_frequency", "modes are not selected by frequency > cutoff"),
+        (f"{R}._C_to_D", "assign", "V", "np.repeat(np.exp(2j * np.pi * np.dot(self._ppos, q)), 3)", "the C-type -> D-type phase is not exp(2 pi i q.r) per Cartesian component"),
+        (f"{R}._C_to_D", "rawassign", "dm", "((V * (V.conj() * dm).T).T).real", "the D-type matrix is not Re(V^* D V) element-wise"),
+        (f"{R}._prepare", "iter", "self._comm_points[self._ii]", "self._comm_points[self._ii] / float(N)", "the ii q-points are not integer points / N"),
+        (f"{R}._prepare", "iter", "self._comm_points[self._ij]", "self._comm_points[self._ij] / float(N)", "the ij q-points are not integer points / N"),
+        (f"{R}.frequencies", "assign", "freqs", "np.sqrt(np.abs(eigvals)) * np.sign(eigvals) * self._factor", "frequencies are not sign(e) sqrt|e| factor"),
+    ]
+    for qn, kind, target, text, msg in S:
+        sites.check(rep, "R19f", RD, qn, "assign" if kind == "rawassign" else kind, target, text, msg + ": the sampled displacements do not have the harmonic canonical covariance", arg0=(target in ("u", "self._u")), raw=(kind == "rawassign"))
+    sites.check(rep, "R19f", RD, f"{R}.frequencies", "assign", "eigvals", "(freqs / self._factor) ** 2 * np.sign(freqs)", "the frequency setter is not the inverse of the getter", setter=True)
 
 
 def _r19e(rep):
@@ -282,4 +312,9 @@ def selftest():
     b("ij phase evaluated at lattice points", RD, "np.exp(2j * np.pi * np.dot(self._spos, q)).reshape(-1, 1)", "np.exp(2j * np.pi * np.dot(self._lpos, q)).reshape(-1, 1)", "R19c", "_prepare")
     b("a second generator from the same seed", RD, "            randn_ii = rng.standard_normal(size=shape)\n", "            randn_ii = rng.standard_normal(size=shape)\n            rng = np.random.default_rng(seed=random_seed)\n", "R19e", "run")
     n("Q2 factors reordered", TD, "            Hbar\n            * EV\n            / Angstrom**2", "            EV\n            * Hbar\n            / Angstrom**2")
+    b("lattice-point positions with a plus", RD, "        self._lpos = self._spos - self._ppos[self._s2pp]", "        self._lpos = self._spos + self._ppos[self._s2pp]", "R19f", "_lpos")
+    b("mass normalisation without N", RD, "        u = np.array((u_ii + u_ij) / np.sqrt(mass * N), dtype=\"double\", order=\"C\")", "        u = np.array((u_ii + u_ij) / np.sqrt(mass), dtype=\"double\", order=\"C\")", "R19f", "u ==")
+    b("D-type transform without the transpose", RD, "        dm = ((V * (V.conj() * dm).T).T).real  # C-type to D-type", "        dm = ((V * (V.conj() * dm)).T).real  # C-type to D-type", "R19f", "_C_to_D")
+    b("q-points not divided by N", RD, "        for q in self._comm_points[self._ii] / float(N):", "        for q in self._comm_points[self._ii] * float(N):", "R19f", "_prepare")
+    n("mass normalisation as two square roots", RD, "        u = np.array((u_ii + u_ij) / np.sqrt(mass * N), dtype=\"double\", order=\"C\")", "        u = np.array((u_ij + u_ii) / np.sqrt(N * mass), dtype=\"double\", order=\"C\")")
     return V
